@@ -44,6 +44,8 @@ def make_device(kind, variant):
         if kind == 'ETnobat':
             d.refused = [(37000, 37023), (39000, 39021), (35301, 35361), (36045, 36124)]
             et_device_info(d, serial=b'9010KETU000W0000', rated=25000)
+        if kind == 'ETfrag':
+            d.fragment_at = 7       # every answer arrives in two datagrams
         if kind == 'ETrej':
             d.refused = [(47500, 47500)]
         if kind == 'ETbad':
@@ -104,17 +106,18 @@ class Gate:
         kern.idle_hook = self.release
 
     def park(self, owner, sock, frame):
-        self.pending[owner] = (sock, frame)
+        self.pending.setdefault(owner, []).append((sock, frame))     # pieces of one owner stay in order
         self.order.append(owner)
 
     def release(self):
         if not self.pending:
             return False
-        owners = [o for o in self.order if o in self.pending]
-        owners = list(dict.fromkeys(owners))
+        owners = list(dict.fromkeys(o for o in self.order if o in self.pending))
         who = owners[0] if len(owners) == 1 or self.ctx is None else self.ctx.choose('deliver', owners)
-        sock, frame = self.pending.pop(who)
-        self.order = [o for o in self.order if o != who]
+        sock, frame = self.pending[who].pop(0)
+        if not self.pending[who]:
+            del self.pending[who]
+        self.order.remove(who)
         if not sock.closed:
             sock.rx.append(('data', frame))
         return True
@@ -262,7 +265,7 @@ def job(j):
 
 
 PAIRS = [('ET', 'ET'), ('ET745', 'ET'), ('ETbad', 'ET745'), ('ETnobat', 'ET'), ('ETv1', 'ET'), ('ETrej', 'ET'),
-         ('DT', 'DT1'), ('DTrej', 'DT'), ('DT1', 'DT1'), ('ES', 'ESv2'), ('ET', 'ESv2'), ('ET', 'DT'), ('ES', 'ES'), ('ETv1', 'ES'), ('ET745', 'ESv2')]
+         ('DT', 'DT1'), ('DTrej', 'DT'), ('DT1', 'DT1'), ('ES', 'ESv2'), ('ETfrag', 'ETfrag'), ('ETfrag', 'DT'), ('ET', 'ESv2'), ('ET', 'DT'), ('ES', 'ES'), ('ETv1', 'ES'), ('ET745', 'ESv2')]
 
 
 def run(tier, seed, rep):
